@@ -408,6 +408,15 @@ class Walker:
     def emit(self, domain, value_node, st):
         items = value_node.elts if isinstance(value_node, (ast.List, ast.Tuple)) else [value_node]
         for it in items:
+            if isinstance(it, ast.IfExp):
+                cond = self.ex(it.test)
+                saved = self.gen
+                self.gen = saved + (('pyif', cond, True),)
+                self.emit(domain, it.body, st)
+                self.gen = saved + (('pyif', cond, False),)
+                self.emit(domain, it.orelse, st)
+                self.gen = saved
+                continue
             if isinstance(it, ast.Call) and isinstance(it.func, ast.Attribute) and it.func.attr == "eq" \
                     and len(it.args) == 1:
                 tgt = self.ex(it.func.value)
